@@ -28,6 +28,8 @@ THEOREMS = [
     "isingCluster_pres",
     "ising_forbidden_mask_illegal",
     "ising_swap_legal",
+    "ising_swap_legal_no_field_ops",
+    "ising_field_op_illegal_without_field",
 ]
 
 RULE = ("same harness as C06 (bin c06, driver drv_c06), seeds shifted so the two checks see different walks: after every single public "
